@@ -22,6 +22,7 @@ const (
 	whatReadWrong    = "ByteStream Read delivered bytes that are not the requested suffix of the object"
 	whatReadChunk    = "ByteStream Read sent a chunk that is empty or larger than the configured chunk size"
 	whatReadNoErr    = "ByteStream Read at an invalid offset or of an unreadable object did not fail"
+	whatReadOKBroken = "Read completed with OK although the object could not be read completely or does not match its digest"
 	whatReadFailed   = "ByteStream Read of a stored object at a valid offset failed"
 	whatBatchUpd     = "BatchUpdateBlobs per-object status does not reflect whether the data matches its digest"
 	whatBatchRead    = "BatchReadBlobs delivered data that is not the stored object matching its digest"
@@ -190,12 +191,22 @@ func oracleRead(st *step, cs int) *verdict {
 	base, _, _ := strings.Cut(op.kind, ".")
 	size, _ := strconv.ParseInt(op.size, 10, 64)
 	content, present := st.casBefore[key(op.hash, size)]
-	readable := present && wellFormedDigest(op.hash, op.size) && matches(op.hash, size, content) &&
-		(base == "id" || base == "zstd") && op.limit == 0 && st.faultGet == 0
+	kindOK := base == "id" || base == "zstd"
+	// what the storage medium can deliver of the object
+	avail := content
+	mediumFails := st.streamPiece > 0 && st.streamFail >= 0
+	if mediumFails && st.streamFail < len(avail) {
+		avail = avail[:st.streamFail]
+	}
+	// intact: the object can be read completely and matches its digest
+	intact := present && wellFormedDigest(op.hash, op.size) && matches(op.hash, size, content) && !mediumFails
+	servable := intact && kindOK && op.limit == 0 && st.faultGet == 0
 	inRange := op.off >= 0 && op.off <= size
 	var got []byte
+	decodable := true
 	if base == "zstd" {
 		got = o.plain
+		decodable = o.zfin == "c"
 	} else {
 		got = bytes.Join(o.sent, nil)
 		for _, c := range o.sent {
@@ -204,33 +215,49 @@ func oracleRead(st *step, cs int) *verdict {
 			}
 		}
 	}
-	if !readable || !inRange {
-		if base == "zstd" && readable && o.err == nil && bytes.Equal(got, content) {
+	if o.err == nil {
+		switch {
+		case !servable:
+			if present && kindOK && op.limit == 0 && st.faultGet == 0 && wellFormedDigest(op.hash, op.size) {
+				return &verdict{whatReadOKBroken, fmt.Sprintf("%d of %d stored bytes readable, matches digest: %v: %s",
+					len(avail), len(content), matches(op.hash, size, content), st.reply)}
+			}
+			if len(got) != 0 {
+				return &verdict{whatReadWrong, fmt.Sprintf("%d bytes delivered for an unreadable object: %s", len(got), st.reply)}
+			}
+			return &verdict{whatReadNoErr, st.reply}
+		case !inRange:
+			if base == "zstd" && bytes.Equal(got, content) {
+				return &verdict{whatD6, fmt.Sprintf("read_offset %d of a %d byte object: whole object delivered", op.off, size)}
+			}
+			if len(got) != 0 {
+				return &verdict{whatReadWrong, fmt.Sprintf("%d bytes delivered for invalid offset %d: %s", len(got), op.off, st.reply)}
+			}
+			return &verdict{whatReadNoErr, st.reply}
+		}
+		want := content[op.off:]
+		if base == "zstd" && op.off != 0 && bytes.Equal(got, content) {
 			return &verdict{whatD6, fmt.Sprintf("read_offset %d of a %d byte object: whole object delivered", op.off, size)}
 		}
-		if len(got) != 0 {
-			return &verdict{whatReadWrong, fmt.Sprintf("%d bytes delivered for an unreadable object / invalid offset %d: %s", len(got), op.off, st.reply)}
+		if !decodable {
+			return &verdict{whatReadWrong, "compressed response does not decode: " + st.reply}
 		}
-		if o.err == nil {
-			return &verdict{whatReadNoErr, st.reply}
+		if !bytes.Equal(got, want) {
+			return &verdict{whatReadWrong, fmt.Sprintf("offset %d: got %x want %x", op.off, got, want)}
 		}
 		return nil
 	}
-	want := content[op.off:]
-	if base == "zstd" && op.off != 0 && o.err == nil && bytes.Equal(got, content) {
-		return &verdict{whatD6, fmt.Sprintf("read_offset %d of a %d byte object: whole object delivered", op.off, size)}
-	}
-	if o.err != nil {
-		if base == "id" && op.failAt > 0 && bytes.HasPrefix(want, got) {
-			return nil // the stream broke; what was sent is a prefix of the suffix
-		}
+	// the RPC failed
+	if servable && inRange && op.failAt == 0 {
 		return &verdict{whatReadFailed, st.reply}
 	}
-	if base == "zstd" && o.zfin != "c" {
-		return &verdict{whatReadWrong, "compressed response does not decode: " + st.reply}
+	// whatever was sent before the failure is a prefix of the requested suffix of what is stored
+	var allowed []byte
+	if present && kindOK && op.off >= 0 && op.off <= int64(len(avail)) {
+		allowed = avail[op.off:]
 	}
-	if !bytes.Equal(got, want) {
-		return &verdict{whatReadWrong, fmt.Sprintf("offset %d: got %x want %x", op.off, got, want)}
+	if decodable && !bytes.HasPrefix(allowed, got) {
+		return &verdict{whatReadWrong, fmt.Sprintf("offset %d: %x sent before the failure, stored %x: %s", op.off, got, avail, st.reply)}
 	}
 	return nil
 }
